@@ -113,9 +113,7 @@ def run_capped(binary, lines, timeout=300, env=None, max_bad=6):
         out, pos, bad = [], 0, 0
         while pos < len(shard):
             p = vf.run_lines(binary, shard[pos:], timeout=timeout, env=env)
-            o = p.stdout.split('\n')
-            if o and o[-1] == '':
-                o = o[:-1]
+            o = p.stdout.split('\n')[:-1]      # drops '' after a complete last line, or a partial line of a killed process
             rest = len(shard) - pos
             if p.returncode == 0 and len(o) == rest:
                 out += o
@@ -862,7 +860,7 @@ def run(ctx):
         ctx.log('break (proof %s, harness %s, leaf %d): searching with a larger budget' % (broken, bool(tools.tie_error), len(lm)))
         mism = explore(ctx, tools, 100000, [3], [(4, 80000), (5, 30000), (6, 30000)], 3000, 40, n_groups=20000)
     else:
-        mism = explore(ctx, tools, 400000, [3, 4], [(5, 250000), (6, 250000)], 30000, 64, n_groups=80000)
+        mism = explore(ctx, tools, 250000, [3, 4], [(5, 100000), (6, 100000)], 30000, 64, n_groups=40000)
     found = bool(ctx.violations) or bool(ctx.known_hits)
     if lm:
         l, x, y = lm[0]
